@@ -103,11 +103,20 @@ def rectangle(s):
     c = point(s) if s.chance(0.7) else None
     k = s.choice([0, 1, 2, 2, 2])
     o = [None, 0.0, None][k] if k < 2 else angle(s)
-    return {"k": "rect", "l": dim(s), "w": dim(s), "c": c, "o": o}
+    out = {"k": "rect", "l": dim(s), "w": dim(s), "c": c, "o": o}
+    return _int_centre(s, out)
+
+
+def _int_centre(s, shape):
+    """Sometimes the centre is given as an array of ints (np.array([10, 5])): int values are admissible."""
+    if shape["c"] is not None and s.chance(0.15):
+        shape["c"] = [float(round(shape["c"][0])), float(round(shape["c"][1]))]
+        shape["int_c"] = True
+    return shape
 
 
 def circle(s):
-    return {"k": "circle", "r": dim(s, 0.1, 8.0), "c": point(s) if s.chance(0.7) else None}
+    return _int_centre(s, {"k": "circle", "r": dim(s, 0.1, 8.0), "c": point(s) if s.chance(0.7) else None})
 
 
 def star_polygon(s):
@@ -157,6 +166,8 @@ def shape_group(s):
                 d = [shift[0] - m["c"][0], shift[1] - m["c"][1]]
                 m = {"k": "poly", "v": [[p[0] + d[0], p[1] + d[1]] for p in m["v"]], "c": shift}
             else:
+                if m.get("int_c"):
+                    shift = [float(round(shift[0])), float(round(shift[1]))]
                 m = dict(m, c=shift)
         members.append(m)
     return {"k": "group", "m": members}
